@@ -320,6 +320,33 @@ func runC18(r *core.Run) {
 				readerStopFrom(c.Format, mk), false, false)
 		})
 
+	core.Clause(r, "error-classes-then-records", core.Opts{Rule: "for BED, FASTQ and Newick: every malformed-line class of the format (one malformed field/line from a menu) placed between well-formed records: the error item must be the last item, and every stop position behaves; for SAM (where iteration continues) every stop position behaves; non-trivial = at least 2 items"},
+		func(emit func(c18Input) bool) {
+			bedBad := []string{"a\t0", "a\tx\t1", "a\t0\tx", "a\t0\t1\tn\tx", "a\t0\t1\tn\t0\t?", "a\t0\t1\tn\t0\t+\tx", "a\t0\t1\tn\t0\t+\t0\tx", "a\t0\t1\tn\t0\t+\t0\t0\t1,2", "a\t0\t1\tn\t0\t+\t0\t0\t256,0,0",
+				"a\t0\t1\tn\t0\t+\t0\t0\t0,0,0\tx", "a\t0\t1\tn\t0\t+\t0\t0\t0,0,0\t2\t1\t1,2", "a\t0\t1\tn\t0\t+\t0\t0\t0,0,0\t1\t1,2\t1", "a\t0\t1\tn\t0\t+\t0\t0\t0,0,0\t1\tx\t1", "a\t0\t1\tn\t0\t+\t0\t0\t0,0,0\t1\t1\tx",
+				"a\t0\t1\tn\t0\t+\t0\t0\t0,0,0\t2", "a\t0\t1\tn\t0\t+\t0\t0\t0,0,0\t0\t\t\textra"}
+			for _, bad := range bedBad {
+				n := strings.Count(bad, "\t") + 1
+				good := strings.Join(strings.Split("a\t0\t1\tn\t0\t+\t0\t0\t0,0,0\t0\t\t", "\t")[:min(max(n, 3), 12)], "\t")
+				emit(c18Input{Format: "bed", Input: core.S(good + "\n" + bad + "\n" + good + "\n" + good + "\n")})
+				emit(c18Input{Format: "bed", Input: core.S(bad + "\n" + good + "\n")})
+			}
+			for _, bad := range []string{"xa\nA\n+\nI\n", "@a\nA\nx\nI\n", "@a\nA\n\nI\n", "@a\nA\n+\nII\n", "@a\nAA\n+\nI\n"} {
+				emit(c18Input{Format: "fastq", Input: core.S("@g\nA\n+\nI\n" + bad + "@h\nC\n+\nI\n@i\nG\n+\nI\n")})
+			}
+			for _, bad := range []string{"(a;", "a b;", "(a,b));", "a:x;", "(a:1:2);", ",;", "'a'b;", "a'b;", "(:;"} {
+				emit(c18Input{Format: "newick", Input: core.S("(x,y);" + bad + "(z);(w);")})
+			}
+			for _, bad := range []string{"q\t1", "q\tx\tr\t1\t9\t1M\t*\t0\t0\tA\tI", "q\t0\tr\t1\t9\t1M\t*\t0\t0\tA\tI\tXX", "q\t0\tr\t1\t9\t1M\t*\t0\t0\tA\tI\tXX:i:x"} {
+				for _, f := range []string{"sam", "samh"} {
+					emit(c18Input{Format: f, Input: core.S("@h\nq\t0\tr\t1\t9\t1M\t*\t0\t0\tA\tI\n" + bad + "\n" + bad + "\nq\t0\tr\t1\t9\t1M\t*\t0\t0\tA\tI\n")})
+				}
+			}
+		},
+		func(c c18Input) core.Outcome {
+			return checkStops(fmt.Sprintf("%s.Reader on %q", c.Format, trunc(string(c.Input), 100)), readerStop(c.Format, c.Input.B()), false, errLastFormat(c.Format))
+		})
+
 	scratch := filepath.Join(r.Root, ".scratch", fmt.Sprintf("c18-%d", os.Getpid()))
 	os.MkdirAll(scratch, 0o755)
 	defer os.RemoveAll(scratch)
